@@ -231,7 +231,7 @@ func reqrepChain(n int) {
 		i, c := i, c
 		calls = append(calls, kit.Start(fmt.Sprintf("client%d", i), func() (interface{}, error) {
 			q := fmt.Sprintf("question-%d", i)
-			if err := c.Send([]byte(q)); err != nil {
+			if err := kit.SendBytes(c, []byte(q)); err != nil {
 				return nil, err
 			}
 			b, err := kit.Recv(c)
@@ -244,7 +244,7 @@ func reqrepChain(n int) {
 			if err != nil {
 				return nil, err
 			}
-			if err := srv.Send([]byte("answer-to-" + string(b))); err != nil {
+			if err := kit.SendBytes(srv, []byte("answer-to-" + string(b))); err != nil {
 				return nil, err
 			}
 		}
@@ -298,10 +298,10 @@ func surveyChain() {
 			if err != nil {
 				return nil, err
 			}
-			return string(b), r.Send([]byte(fmt.Sprintf("vote-%d", i)))
+			return string(b), kit.SendBytes(r, []byte(fmt.Sprintf("vote-%d", i)))
 		}))
 	}
-	must(sv.Send([]byte("the-survey")), "Send survey")
+	must(kit.SendBytes(sv, []byte("the-survey")), "Send survey")
 	var got []string
 	rc := kit.Start("surveyor", func() (interface{}, error) {
 		for i := 0; i < 2; i++ {
@@ -342,7 +342,7 @@ func pair1Chain() {
 	must(a.Dial("inproc://c09-p1a"), "Dial")
 	kit.Quiesce()
 	ca := kit.Start("A", func() (interface{}, error) {
-		if err := a.Send([]byte("ping")); err != nil {
+		if err := kit.SendBytes(a, []byte("ping")); err != nil {
 			return nil, err
 		}
 		x, err := kit.Recv(a)
@@ -353,7 +353,7 @@ func pair1Chain() {
 		if err != nil {
 			return nil, err
 		}
-		return string(x), b.Send([]byte("pong"))
+		return string(x), kit.SendBytes(b, []byte("pong"))
 	})
 	kit.Quiesce()
 	if !ca.Done() || ca.Err != nil || ca.Val.(string) != "pong" {
@@ -391,9 +391,9 @@ func deviceTTL() {
 		if err != nil {
 			return nil, err
 		}
-		return string(b), srv.Send([]byte("served"))
+		return string(b), kit.SendBytes(srv, []byte("served"))
 	})
-	must(c.Send([]byte("q")), "Send")
+	must(kit.SendBytes(c, []byte("q")), "Send")
 	rc := kit.Start("client", func() (interface{}, error) { b, err := kit.Recv(c); return string(b), err })
 	kit.Quiesce()
 	want := n+1 <= t
